@@ -118,7 +118,12 @@ fn gen_ctor(rng: &mut Rng) -> Value {
         match rng.below(4) {
             0 => {
                 let k = rng.below(4) as usize;
-                idx[k] = (base + if rng.chance(50) { 1 } else { 511 }) % 512;
+                idx[k] = if rng.chance(50) {
+                    (base + if rng.chance(50) { 1 } else { 511 }) % 512
+                } else {
+                    // one index differs in a single bit (all nine bit positions, 256 included)
+                    base ^ (1 << rng.below(9))
+                };
             }
             1 => {
                 let k = rng.below(4) as usize;
